@@ -364,3 +364,59 @@ PROPS['C14'] = dict(
     technique='Coq equational theorems over higher-order combinators (arbitrary components) + probe-operator correspondence at word level',
     design_ref='DESIGN.md §6 C14',
 )
+
+# ---------------------------------------------------------------------------
+# C17
+C17_TRAITS = ['DynSelector', 'DynMutator', 'DynRecombinator', 'DynOperator', 'DynChildMaker']
+C17_IMPLS = [['Best', 'Worst', 'Random', 'Tournament(2)', 'Tournament(5)'], ['WithRate(0.3)', 'WithOneOverLength', 'failing mutator'],
+             ['UniformXo', 'TwoPointXo', 'failing recombinator'], ['AddWord', 'AddWord.then(AddWord)', 'failing operator', 'Mutate(WithRate(0.5))'],
+             ['select+word', 'two parents', 'failing child maker']]
+C17_PTR = ['&', '&mut', 'RefMut', 'Box', 'Arc', 'Rc', 'Ref']
+C17_AUTO = ['', '+Send', '+Sync', '+Send+Sync']
+def c17_describe(inp, obs):
+    return '%s behind %s<dyn %s%s>, seed %d, data %s; observed [concrete outcome, next word, erased outcome, next word]' % (
+        C17_IMPLS[inp[0]][inp[1]], C17_PTR[inp[2] // 4], C17_TRAITS[inp[0]], C17_AUTO[inp[2] % 4], inp[3], inp[4])
+PROPS['C17'] = dict(
+    corr='CorrC17', judge='(judge_cases judge)',
+    coq_targets=['theories/Props/C17.vo', 'theories/Corr/CorrC17.vo'],
+    describe=c17_describe, no_shrink=True,
+    nontrivial=lambda i, o: True,
+    bucket=lambda i, o: ['trait=%s' % C17_TRAITS[i[0]], 'pointer=%s' % C17_PTR[i[2] // 4], 'auto=%s' % (C17_AUTO[i[2] % 4] or 'none'),
+                         'outcome=%s' % ('ok' if isinstance(o, list) and len(o) == 4 and o[0][0] == 0 else 'err')],
+    classify=lambda i, o: '%s/%s' % (C17_TRAITS[i[0]], C17_PTR[i[2] // 4]),
+    rule='all five erasable traits x all 28 generated pointer flavours (7 pointer kinds x {none, Send, Sync, Send+Sync}) x 3-5 wrapped implementations each (library selectors, mutators, recombinators, composed operators, child makers, and one failing implementation per trait) x 2 (quick) / 12 (thorough) seeded inputs incl. empty populations and length-mismatched parents (error paths). The concrete call and the erased call start from clones of one generator; the selected index (pointer identity) / genome / value, the error message and the next word of each generator are compared. A flavour that stops compiling breaks the harness build (reported as broken correspondence). Every case is non-trivial.',
+    trusted=['error identity is observed as to_string() of the boxed error'],
+    assumptions=['thin model by design: the property says the layer adds nothing'],
+    level_text='Theorems (Props/C17.v): erase into f returns the same value, the image of the same error, and leaves the threaded state (random stream) exactly as f does, for every f; pointer flavours are the identity on behaviour; erasing twice composes the conversions. Tied to the code by instantiating every generated flavour of every erasable trait around concrete implementations and comparing with the concrete call from a cloned generator.',
+    level_note='Trusted: Coq kernel; harness+driver; generated instantiation code (harness/gen/gen_c17.py).',
+    technique='Coq equational theorems for erase = map_err into + exhaustive flavour instantiation (5 traits x 28 flavours) differential correspondence',
+    design_ref='DESIGN.md §6 C17',
+)
+
+# ---------------------------------------------------------------------------
+# C10
+C10_KINDS = ['TwoPointXo [Vec;2]', 'TwoPointXo (Vec,Vec)', 'TwoPointXo [Bitstring;2]', 'UniformXo [Vec;2]', 'UniformXo (Vec,Vec)', 'UniformXo [Bitstring;2]',
+             'Bitstring::crossover_gene', 'Bitstring::crossover_segment']
+def c10_describe(inp, obs):
+    if inp[0] < 6:
+        return '%s on parents %s and %s, %d seeded draws (seed %d)%s; observed [0, [[child, count]..]] or [1]=error' % (
+            C10_KINDS[inp[0]], inp[1], inp[2], inp[4], inp[3], ', every possible child must occur' if inp[5] else '')
+    return '%s on %s / %s with %s; observed [0|1(error), first genome after, second genome after]' % (C10_KINDS[inp[0]], inp[1], inp[2], inp[3:])
+def c10_classify(inp, obs):
+    if isinstance(obs, list) and obs and obs[0] == -1:
+        return 'panic:%s' % C10_KINDS[inp[0]].split(' ')[0]
+    return C10_KINDS[inp[0]]
+PROPS['C10'] = dict(
+    corr='CorrC10', judge='(judge_cases judge)', show='(show_cases show [])',
+    coq_targets=['theories/Props/C10.vo', 'theories/Corr/CorrC10.vo'],
+    describe=c10_describe, classify=c10_classify,
+    nontrivial=lambda i, o: len(i[1]) >= 1 or len(i[2]) >= 1,
+    bucket=lambda i, o: ['op=%s' % C10_KINDS[i[0]], 'len=%d/%d' % (len(i[1]), len(i[2])), 'outcome=%s' % ({0: 'ok', 1: 'error', -1: 'panic'}.get(o[0] if isinstance(o, list) and o else None, '?'))],
+    rule='TwoPointXo and UniformXo in all three argument forms ([Vec;2], (Vec,Vec), [Bitstring;2]) on position-tagged (vectors) / complementary (bitstrings) parents of length 0..6, 3000 (quick) / 50000 (thorough) seeded draws each: every child must lie in the model support (exact, per draw) and - where the rarest child has probability >= 1/64 - every child of the support must have been drawn (all (n+1)(n+2)/2 segments incl. those touching either end; all 2^n masks for n <= 5); parents of different lengths both ways (error expected); crossover_gene / crossover_segment exhaustively over lengths 0..4 (5 thorough) of both genomes x indices 0..7 x all ranges incl. reversed and out-of-range, result and both genomes afterwards. Non-trivial: non-empty parents.',
+    trusted=['rand::Rng::random_range / random::<bool> as oracles: only their support is used here'],
+    assumptions=['the cut-point DISTRIBUTION is not pinned by the property (only which segments can occur)', 'completeness of the support is judged from a finite sample: miss probability < 1e-20 per case'],
+    level_text='Theorems (Props/C10.v) about the support model: a two-point child has the parents length, is position-wise parental and takes ONE contiguous segment from the second parent; every segment 0 <= lo <= hi <= n is possible (both ends); empty parents give the empty child; uniform children are position-wise parental and every mask is possible; unequal lengths are errors; the exchange primitives swap exactly the addressed genes or report an error (reversed / out-of-range), never panic. Tied to the code by exact per-draw support membership, observed completeness of the support, and exhaustive exchange arguments.',
+    level_note='Trusted: Coq kernel; harness+driver; rand primitives as oracles.',
+    technique='Coq support-level theorems (splice / mask algebra) + exact support-membership and support-completeness correspondence, exhaustive exchange-primitive arguments',
+    design_ref='DESIGN.md §7 C10',
+)
